@@ -450,6 +450,23 @@ def rule_h(ctx):
         ctx.ob(R, k.qname, f"{cname}: no attribute object is modified in place through an alias during a call", not bad,
                "; ".join(f"{f.short} L{getattr(e.node, 'lineno', 0)}: `{e.via[:60]}` ({e.kind})" for f, e in bad[:3]) + " -- the attribute keeps the modified object: a second call starts from different coefficients / history",
                bad[0][1].node if bad else k.node, evidence=True)
+    # the regulariser object that wraps split_bregman_tvd: a call leaves the object as configured (no attribute is re-bound, no option
+    # is taken out of the stored keyword arguments) -- otherwise the second call of the same object runs with other options than the first
+    k = m.cls("darsia.restoration.tvd", "TVD")
+    sa = StateAnalysis(m, k, ["__call__"])
+    ctx.instance(R)
+    bad = []
+    for f in sa.closure:
+        n_f += 1
+        if not f.params or f.name == "__init__":
+            continue
+        for e in E.events_on(f, f.params[0]):
+            if e.kind == "callee":
+                continue
+            bad.append((f, e))
+    ctx.ob(R, k.qname, "TVD: a call does not change the configured object (attributes, stored keyword arguments)", not bad,
+           "; ".join(f"{f.short} L{getattr(e.node, 'lineno', 0)}: `{e.via[:70]}` ({e.kind})" for f, e in bad[:3]) + " -- the next call of the same object runs with a different configuration (e.g. the default solver instead of the one given)",
+           bad[0][1].node if bad else k.node, evidence=True)
     ctx.stat("closure_functions_scanned", n_f)
     ctx.floor(R, 4)
 
